@@ -115,6 +115,14 @@ theorem mapE_eq_ok_map {β γ : Type} (f : β → Except Err γ) (g : β → γ)
     simp only [Bal.mapE, h x (List.mem_cons_self), ih (fun y hy => h y (List.mem_cons_of_mem _ hy)),
       List.map_cons]
 
+theorem mapE_map_ok {β γ δ : Type} (f : γ → Except Err δ) (g : β → γ) (h : β → δ) (l : List β)
+    (hf : ∀ x ∈ l, f (g x) = .ok (h x)) : Bal.mapE f (l.map g) = .ok (l.map h) := by
+  induction l with
+  | nil => rfl
+  | cons x xs ih =>
+    simp only [List.map_cons, Bal.mapE, hf x (List.mem_cons_self),
+      ih (fun y hy => hf y (List.mem_cons_of_mem _ hy))]
+
 /-! ## 1. the column reader: `columns_any_layout` (repair D12) -/
 
 def SortedNat (l : List Nat) : Prop := l.Pairwise (· ≤ ·)
@@ -701,8 +709,1184 @@ theorem join_effect (ops : Bal.Ops Int α) (s : Store α) (o : DumpOpts) (p : Px
               = a ++ b ++ r1.filter (fun c => !(decide (c.1 ∈ idCols))) ++ e :=
             bump_noid_of_names _ _ hnoid
           simp only [List.append_assoc] at hb ⊢
-          split <;> simp [hb]
+          have : bumpIf o.oneBasedIds idCols (a ++ (b ++ (r1.filter (fun c => !(decide (c.1 ∈ idCols))) ++ e)))
+              = a ++ (b ++ (r1.filter (fun c => !(decide (c.1 ∈ idCols))) ++ e)) := by
+            unfold bumpIf; split
+            · exact hb
+            · rfl
+          rw [this]
+
+/-! #### `--balanced`, `--annotate`, the column names -/
+
+theorem map_insertAt {β γ : Type} (f : β → γ) (k : Nat) (x : β) (l : List β) :
+    (insertAt k x l).map f = insertAt k (f x) (l.map f) := by
+  simp [insertAt, List.map_take, List.map_drop]
+
+theorem insertAt_append {β : Type} (l1 l2 : List β) (x : β) :
+    insertAt l1.length x (l1 ++ l2) = l1 ++ x :: l2 := by
+  simp [insertAt]
+
+theorem bumpIf_insertAt (b : Bool) (cols : List String) (k : Nat) (x : String × Val α) (l : Row α)
+    (hx : x.1 ∉ cols) : bumpIf b cols (insertAt k x l) = insertAt k x (bumpIf b cols l) := by
+  unfold bumpIf
+  split
+  · unfold bump
+    rw [map_insertAt]
+    simp [hx]
+  · rfl
+
+theorem bumpIf_append (b : Bool) (cols : List String) (r e : Row α) :
+    bumpIf b cols (r ++ e) = bumpIf b cols r ++ bumpIf b cols e := by
+  unfold bumpIf bump
+  split
+  · rw [List.map_append]
+  · rfl
+
+theorem sideCols_length (s : Store α) (fs : List String) (sfx : String) (k : Nat) (r : Row α)
+    (h : sideCols s fs sfx k = some r) : r.length = fs.length :=
+  mapO_length _ _ _ h
+
+/-- **`--balanced`**: the row with the flag is the row without it with one more column, `balanced`,
+right after `count`, holding `weight[bin1] · weight[bin2] · count` (C12's `entryCell`) — no other cell
+changes; without a `weight` column (or with an id outside it) there is no output -/
+theorem balanced_effect (ops : Bal.Ops Int α) (s : Store α) (o : DumpOpts) (p : Px) :
+    annotateRow ops s { o with balanced := true } p =
+      (balancedCell ops s p).bind fun v =>
+        (annotateRow ops s { o with balanced := false } p).map
+          (insertAt (if o.join = true then 7 else 3) ("balanced", v)) := by
+  have hE1 : extraCols s { o with balanced := true } p = extraCols s o p := rfl
+  have hE2 : extraCols s { o with balanced := false } p = extraCols s o p := rfl
+  have hB1 : balStage ops s { o with balanced := true } p
+      = (balancedCell ops s p).map fun v => baseRow p ++ [("balanced", v)] := rfl
+  have hB2 : balStage ops s { o with balanced := false } p = some (baseRow p) := rfl
+  have hJ1 : ∀ r, joinStage s { o with balanced := true } p r = joinStage s o p r := fun _ => rfl
+  have hJ2 : ∀ r, joinStage s { o with balanced := false } p r = joinStage s o p r := fun _ => rfl
+  have hF1 : ∀ r e : Row α, finish { o with balanced := true } r e = finish o r e := fun _ _ => rfl
+  have hF2 : ∀ r e : Row α, finish { o with balanced := false } r e = finish o r e := fun _ _ => rfl
+  unfold annotateRow
+  simp only [hE1, hE2, hB1, hB2, hJ1, hJ2, hF1, hF2]
+  cases hv : balancedCell ops s p with
+  | none => cases extraCols s o p <;> rfl
+  | some v =>
+    cases he : extraCols s o p with
+    | none => rfl
+    | some e =>
+      simp only [Option.bind_some, Option.map_some]
+      have hbal1 : (("balanced", v) : String × Val α).1 ∉ idCols := by
+        show "balanced" ∉ idCols; decide
+      have hbal2 : (("balanced", v) : String × Val α).1 ∉ startCols := by
+        show "balanced" ∉ startCols; decide
+      unfold joinStage
+      by_cases hj : o.join = true
+      · simp only [hj, if_true]
+        unfold joinRow
+        cases h1 : sideCols s coordFields "1" p.i with
+        | none => rfl
+        | some a =>
+          cases h2 : sideCols s coordFields "2" p.j with
+          | none => rfl
+          | some b =>
+            simp only [Option.bind_some, Option.map_some, Option.map_map]
+            have hla : a.length = 3 := sideCols_length s _ _ _ a h1
+            have hlb : b.length = 3 := sideCols_length s _ _ _ b h2
+            have hf1 : (baseRow p ++ [("balanced", v)] : Row α).filter (fun c => !(decide (c.1 ∈ idCols)))
+                = [("count", .int p.v), ("balanced", v)] := by
+              simp [baseRow, idCols, List.filter]
+            have hf2 : (baseRow p : Row α).filter (fun c => !(decide (c.1 ∈ idCols)))
+                = [("count", .int p.v)] := by
+              simp [baseRow, idCols, List.filter]
+            rw [hf1, hf2]
+            unfold finish
+            rw [← bumpIf_insertAt _ _ _ _ _ hbal2, ← bumpIf_insertAt _ _ _ _ _ hbal1]
+            have : insertAt 7 ("balanced", v) (a ++ b ++ [("count", Val.int p.v)] ++ e)
+                = a ++ b ++ [("count", Val.int p.v), ("balanced", v)] ++ e := by
+              have h7 : (a ++ b ++ [("count", Val.int p.v)] : Row α).length = 7 := by simp [hla, hlb]
+              rw [← h7, insertAt_append]
+              simp
+            rw [this]
+      · have hj' : o.join = false := by simpa using hj
+        simp only [hj', Bool.false_eq_true, if_false, Option.map_some]
+        unfold finish
+        rw [← bumpIf_insertAt _ _ _ _ _ hbal2, ← bumpIf_insertAt _ _ _ _ _ hbal1]
+        have : insertAt 3 ("balanced", v) (baseRow p ++ e) = baseRow p ++ [("balanced", v)] ++ e := by
+          have h3 : (baseRow p : Row α).length = 3 := rfl
+          rw [← h3, insertAt_append]
+          simp
+        rw [this]
+
+/-- **`--annotate f,…`**: the row with the option is the row without it followed by the columns
+`f1 … f2 …` holding the bin-table values of the record's two bins (the one-based shifts then apply to
+the added columns that carry an id/start name, e.g. `--annotate start`) -/
+theorem annotate_effect (ops : Bal.Ops Int α) (s : Store α) (o : DumpOpts) (fs : List String) (p : Px) :
+    annotateRow ops s { o with annotate := some fs } p =
+      ((sideCols s fs "1" p.i).bind fun a => (sideCols s fs "2" p.j).map fun b => a ++ b).bind fun e =>
+        (annotateRow ops s { o with annotate := none } p).map
+          (· ++ bumpIf o.oneBasedStarts startCols (bumpIf o.oneBasedIds idCols e)) := by
+  have hE1 : extraCols s { o with annotate := some fs } p
+      = (sideCols s fs "1" p.i).bind fun a => (sideCols s fs "2" p.j).map fun b => a ++ b := rfl
+  have hE2 : extraCols s { o with annotate := none } p = some [] := rfl
+  have hB1 : balStage ops s { o with annotate := some fs } p = balStage ops s o p := rfl
+  have hB2 : balStage ops s { o with annotate := none } p = balStage ops s o p := rfl
+  have hJ1 : ∀ r, joinStage s { o with annotate := some fs } p r = joinStage s o p r := fun _ => rfl
+  have hJ2 : ∀ r, joinStage s { o with annotate := none } p r = joinStage s o p r := fun _ => rfl
+  have hF1 : ∀ r e : Row α, finish { o with annotate := some fs } r e = finish o r e := fun _ _ => rfl
+  have hF2 : ∀ r e : Row α, finish { o with annotate := none } r e = finish o r e := fun _ _ => rfl
+  unfold annotateRow
+  simp only [hE1, hE2, hB1, hB2, hJ1, hJ2, hF1, hF2]
+  cases ((sideCols s fs "1" p.i).bind fun a => (sideCols s fs "2" p.j).map fun b => a ++ b) with
+  | none => rfl
+  | some e =>
+    simp only [Option.bind_some]
+    cases balStage ops s o p with
+    | none => rfl
+    | some r1 =>
+      simp only [Option.bind_some, Option.map_map]
+      cases joinStage s o p r1 with
+      | none => rfl
+      | some r2 =>
+        simp only [Option.map_some, Function.comp]
+        unfold finish
+        rw [bumpIf_append, bumpIf_append, List.append_nil]
+
+/-- the column names of every dumped row are `dumpColumns` (the header line, when printed) -/
+theorem row_columns (ops : Bal.Ops Int α) (s : Store α) (o : DumpOpts) (p : Px) (r : Row α)
+    (h : annotateRow ops s o p = some r) : rowNames r = dumpColumns o := by
+  unfold annotateRow at h
+  cases he : extraCols s o p with
+  | none => simp [he] at h
+  | some e =>
+    cases hb : balStage ops s o p with
+    | none => simp [he, hb] at h
+    | some r1 =>
+      cases hj : joinStage s o p r1 with
+      | none => simp [he, hb, hj] at h
+      | some r2 =>
+        simp [he, hb, hj] at h
+        subst h
+        unfold finish
+        rw [rowNames_bumpIf, rowNames_bumpIf]
+        -- names of the extra columns
+        have hen : rowNames e = (match o.annotate with
+            | none => []
+            | some fs => fs.map (· ++ "1") ++ fs.map (· ++ "2")) := by
+          unfold extraCols at he
+          cases ha : o.annotate with
+          | none => simp [ha] at he; subst he; rfl
+          | some fs =>
+            simp only [ha] at he
+            cases h1 : sideCols s fs "1" p.i with
+            | none => simp [h1] at he
+            | some a =>
+              cases h2 : sideCols s fs "2" p.j with
+              | none => simp [h1, h2] at he
+              | some b =>
+                simp [h1, h2] at he
+                subst he
+                simp only [rowNames, List.map_append]
+                have := sideCols_names s fs "1" p.i a h1
+                have := sideCols_names s fs "2" p.j b h2
+                simp only [rowNames] at *
+                simp [*]
+        -- names after the balanced stage
+        have hr1 : rowNames r1 = idCols ++ ["count"] ++ (if o.balanced = true then ["balanced"] else []) := by
+          unfold balStage at hb
+          by_cases hbal : o.balanced = true
+          · simp only [hbal, if_true] at hb ⊢
+            cases hv : balancedCell ops s p with
+            | none => simp [hv] at hb
+            | some v => simp [hv] at hb; subst hb; rfl
+          · have : o.balanced = false := by simpa using hbal
+            simp only [this, Bool.false_eq_true, if_false] at hb ⊢
+            cases hb; rfl
+        -- names after the join stage
+        have hr2 : rowNames r2 = (if o.join = true then coordFields.map (· ++ "1") ++ coordFields.map (· ++ "2")
+            else idCols) ++ ["count"] ++ (if o.balanced = true then ["balanced"] else []) := by
+          unfold joinStage at hj
+          by_cases hjn : o.join = true
+          · simp only [hjn, if_true] at hj ⊢
+            unfold joinRow at hj
+            cases h1 : sideCols s coordFields "1" p.i with
+            | none => simp [h1] at hj
+            | some a =>
+              cases h2 : sideCols s coordFields "2" p.j with
+              | none => simp [h1, h2] at hj
+              | some b =>
+                simp [h1, h2] at hj
+                subst hj
+                have ha := sideCols_names s _ "1" p.i a h1
+                have hb' := sideCols_names s _ "2" p.j b h2
+                have hfil : rowNames (r1.filter fun c => !(decide (c.1 ∈ idCols)))
+                    = (rowNames r1).filter fun c => !(decide (c ∈ idCols)) := by
+                  unfold rowNames
+                  rw [List.filter_map]
+                  rfl
+                simp only [rowNames, List.map_append] at ha hb' hfil ⊢
+                rw [ha, hb', hfil]
+                simp only [rowNames] at hr1
+                rw [hr1]
+                cases o.balanced <;> simp [idCols, List.filter]
+          · have : o.join = false := by simpa using hjn
+            simp only [this, Bool.false_eq_true, if_false] at hj ⊢
+            cases hj
+            exact hr1
+        simp only [rowNames, List.map_append] at hen hr2 ⊢
+        rw [hen, hr2]
+        unfold dumpColumns
+        rfl
+
+/-- **`--table … --columns a,b,…`** is the plain projection of the full table on the named columns, in
+the order asked -/
+theorem table_columns_effect (s : Store α) (t : Table) (cs : List String) :
+    dumpTable s t (some cs) = (dumpTable s t none).bind (mapO (projectRow cs)) := rfl
+
+theorem projectRow_spec (cs : List String) (r r' : Row α) (h : projectRow cs r = some r') :
+    rowNames r' = cs ∧ ∀ c ∈ cs, ∃ v, r.lookup c = some v ∧ (c, v) ∈ r' := by
+  unfold projectRow at h
+  induction cs generalizing r' with
+  | nil => simp [mapO] at h; subst h; simp [rowNames]
+  | cons c cs ih =>
+    simp only [mapO] at h
+    cases hl : r.lookup c with
+    | none => simp [hl] at h
+    | some v =>
+      cases hm : mapO (fun c => (r.lookup c).map fun v => (c, v)) cs with
+      | none => simp [hl, hm] at h
+      | some rest =>
+        simp [hl, hm] at h
+        subst h
+        obtain ⟨h1, h2⟩ := ih rest hm
+        refine ⟨by simp [rowNames] at h1 ⊢; exact h1, ?_⟩
+        intro c' hc'
+        rcases List.mem_cons.mp hc' with rfl | hc'
+        · exact ⟨v, hl, by simp⟩
+        · obtain ⟨v', hv1, hv2⟩ := h2 c' hc'
+          exact ⟨v', hv1, List.mem_cons_of_mem _ hv2⟩
 
 end dump
+
+/-! ## 3. dump → load round trips -/
+
+section load
+variable {α : Type}
+
+/-- 1 for a one-based text file, 0 otherwise -/
+def dI (d : Bool) : Int := if d then 1 else 0
+
+/-- the key and value of a stored pixel as the validator sees them -/
+def kvOf (p : Px) : (Int × Int) × Int := (((p.i : Int), (p.j : Int)), p.v)
+
+/-- what a reader chunk of pixels must satisfy (all of it follows from `ValidStore`) -/
+structure ChunkOK (n : Nat) (symm : Bool) (qs : Pixels) : Prop where
+  inRange : ∀ p ∈ qs, p.i < n ∧ p.j < n
+  triu : symm = true → ∀ p ∈ qs, p.i ≤ p.j
+  keys : (qs.map fun p => (p.i, p.j)).Nodup
+
+/-- the validator accepts any rearrangement of a valid chunk and stores its pixels -/
+theorem validateChunk_perm (n : Nat) (symm : Bool) (qs : Pixels) (hq : ChunkOK n symm qs)
+    (keyvals : List ((Int × Int) × Int)) (hp : keyvals.Perm (qs.map kvOf)) :
+    ∃ t, validateChunk n symm keyvals = .ok t ∧ t.Perm qs := by
+  unfold validateChunk
+  have hc : (keyvals.map fun kv => (kv.1.1, kv.1.2, kv.2)).Perm
+      (qs.map fun p => (((p.i : Int), (p.j : Int), p.v) : CreateSteps.Rec)) := by
+    have := hp.map (fun kv : (Int × Int) × Int => ((kv.1.1, kv.1.2, kv.2) : CreateSteps.Rec))
+    rw [List.map_map] at this
+    exact this
+  have hacc : CreateSteps.validatePixels n symm true true true false
+      (keyvals.map fun kv => (kv.1.1, kv.1.2, kv.2)) = .ok (keyvals.map fun kv => (kv.1.1, kv.1.2, kv.2)) := by
+    rw [C13.validate_accepts_iff]
+    refine ⟨?_, ?_, ?_⟩
+    · intro r hr
+      obtain ⟨q, hq', rfl⟩ := List.mem_map.mp (hc.mem_iff.mp hr)
+      have := hq.inRange q hq'
+      simp only []
+      omega
+    · intro hs r hr
+      obtain ⟨q, hq', rfl⟩ := List.mem_map.mp (hc.mem_iff.mp hr)
+      have := hq.triu hs q hq'
+      simp only []
+      omega
+    · unfold C13.KeysDistinct
+      have h2 := (hc.map CreateSteps.keyOf).nodup_iff
+      rw [h2, List.map_map]
+      have : (qs.map (CreateSteps.keyOf ∘ fun p => (((p.i : Int), (p.j : Int), p.v) : CreateSteps.Rec)))
+          = (qs.map fun p => (p.i, p.j)).map (fun k : Nat × Nat => ((k.1 : Int), (k.2 : Int))) := by
+        rw [List.map_map]; rfl
+      rw [this]
+      have hk := hq.keys
+      rw [List.nodup_iff_pairwise_ne] at hk ⊢
+      rw [List.pairwise_map]
+      exact hk.imp (fun {a b} hne heq => hne (by
+        simp only [Prod.mk.injEq] at heq
+        ext <;> omega))
+  rw [hacc]
+  refine ⟨_, rfl, ?_⟩
+  have := hp.map (fun kv : (Int × Int) × Int => (⟨kv.1.1.toNat, kv.1.2.toNat, kv.2⟩ : Px))
+  rw [List.map_map] at this
+  have hid : qs.map ((fun kv : (Int × Int) × Int => (⟨kv.1.1.toNat, kv.1.2.toNat, kv.2⟩ : Px)) ∘ kvOf) = qs := by
+    conv => rhs; rw [← List.map_id qs]
+    apply List.map_congr_left
+    intro p _
+    simp [kvOf]
+  rw [hid] at this
+  exact this
+
+/-- the chunks of any cutting of (a rearrangement of) a valid table are valid chunks -/
+theorem chunkOK_of_valid (n : Nat) (symm : Bool) (px : Pixels) (hs : StrictSorted px) (hr : InRange n px)
+    (ht : symm = true → Triu px) (qss : List Pixels) (hq : qss.flatten.Perm px) :
+    ∀ qs ∈ qss, ChunkOK n symm qs := by
+  intro qs hqs
+  have hsub := List.sublist_flatten_of_mem hqs
+  have hmem : ∀ p ∈ qs, p ∈ px := fun p hp => hq.mem_iff.mp (hsub.subset hp)
+  refine ⟨fun p hp => hr p (hmem p hp), fun h p hp => ht h p (hmem p hp), ?_⟩
+  have hk : (px.map fun p => (p.i, p.j)).Nodup := by
+    unfold StrictSorted at hs
+    rw [List.nodup_iff_pairwise_ne, List.pairwise_map]
+    exact hs.imp (fun {a b} hab heq => by
+      simp only [Prod.mk.injEq] at heq
+      unfold keyLt at hab; omega)
+  have := ((hq.map fun p => (p.i, p.j)).nodup_iff).mpr hk
+  exact (hsub.map _).nodup this
+
+/-- whatever the per-chunk loader is, if it stores a rearrangement of each valid chunk then the merged
+result is the original table -/
+theorem aggregate_chunks (px : Pixels) (hs : StrictSorted px) {β : Type} (f : β → Except Err Pixels)
+    (g : Pixels → β) (qss : List Pixels) (hq : qss.flatten.Perm px)
+    (hf : ∀ qs ∈ qss, ∃ t, f (g qs) = .ok t ∧ t.Perm qs) :
+    ∃ tables, Bal.mapE f (qss.map g) = .ok tables ∧ Unordered.aggregateAll tables = px := by
+  have : ∃ tables, Bal.mapE f (qss.map g) = .ok tables ∧ tables.flatten.Perm qss.flatten := by
+    clear hq
+    induction qss with
+    | nil => exact ⟨[], rfl, List.Perm.refl _⟩
+    | cons qs rest ih =>
+      obtain ⟨t, h1, h2⟩ := hf qs (List.mem_cons_self)
+      obtain ⟨ts, h3, h4⟩ := ih (fun q hq => hf q (List.mem_cons_of_mem _ hq))
+      refine ⟨t :: ts, ?_, ?_⟩
+      · simp only [List.map_cons, Bal.mapE, h1, h3]
+      · simp only [List.flatten_cons]
+        exact h2.append h4
+  obtain ⟨tables, h1, h2⟩ := this
+  refine ⟨tables, h1, ?_⟩
+  unfold Unordered.aggregateAll
+  rw [groupSum_perm (h2.trans hq), groupSum_of_sorted px hs]
+
+/-! ### COO -/
+
+/-- the dumped line of a stored pixel under `cooler dump [--one-based-ids]` -/
+def cooRow (d : Bool) (p : Px) : Row α :=
+  [("bin1_id", .int (p.i + dI d)), ("bin2_id", .int (p.j + dI d)), ("count", .int p.v)]
+
+theorem annotateRow_coo (ops : Bal.Ops Int α) (s : Store α) (h d : Bool) (p : Px) :
+    annotateRow ops s { header := h, oneBasedIds := d } p = some (cooRow d p) := by
+  cases d <;>
+    simp [annotateRow, extraCols, balStage, joinStage, finish, bumpIf, bump, baseRow, idCols, startCols,
+      Val.succ, cooRow, dI]
+
+/-- a COO record is read from wherever its three fields are declared to be -/
+theorem cooRec_of_layout (fields : List (String × Nat)) (value : String) (row : List (Val α))
+    (hinj : (fields.map (·.2)).Nodup) (hnames : (fields.map (·.1)).Nodup)
+    (hrange : ∀ fc ∈ fields, fc.2 < row.length) (c1 c2 cv : Nat) (a b v : Int)
+    (h1 : ("bin1_id", c1) ∈ fields) (h2 : ("bin2_id", c2) ∈ fields) (h3 : (value, cv) ∈ fields)
+    (r1 : row[c1]? = some (.int a)) (r2 : row[c2]? = some (.int b)) (r3 : row[cv]? = some (.int v)) :
+    cooRec fields value row = .ok { b1 := a, b2 := b, u := [v] } := by
+  obtain ⟨parsed, hp, _, hl⟩ := columns_any_layout fields row hinj hnames hrange
+  unfold cooRec
+  rw [hp]
+  have e1 := hl _ h1
+  have e2 := hl _ h2
+  have e3 := hl _ h3
+  simp only [] at e1 e2 e3
+  simp only [fieldInt, e1, e2, e3, r1, r2, r3, Val.asInt]
+
+theorem cooRec_cooRow (d : Bool) (p : Px) :
+    cooRec cooFields "count" (rowCells (cooRow (α := α) d p))
+      = .ok { b1 := (p.i : Int) + dI d, b2 := (p.j : Int) + dI d, u := [p.v] } :=
+  cooRec_of_layout cooFields "count" _ (by decide) (by decide)
+    (by intro fc hfc; simp [cooFields] at hfc; rcases hfc with rfl | rfl | rfl <;> simp [rowCells, cooRow])
+    0 1 2 _ _ _ (by simp [cooFields]) (by simp [cooFields]) (by simp [cooFields]) rfl rfl rfl
+
+/-- one reader chunk of dumped COO lines is stored as (a rearrangement of) its pixels -/
+theorem cooChunk_dump (n : Nat) (symm d : Bool) (qs : Pixels) (hq : ChunkOK n symm qs) :
+    ∃ t, cooChunk { oneBased := d, symm := symm } n cooFields "count"
+        (qs.map fun p => rowCells (cooRow (α := α) d p)) = .ok t ∧ t.Perm qs := by
+  unfold cooChunk
+  have hrecs : Bal.mapE (cooRec cooFields "count") (qs.map fun p => rowCells (cooRow (α := α) d p))
+      = .ok (qs.map fun p => ({ b1 := (p.i : Int) + dI d, b2 := (p.j : Int) + dI d, u := [p.v] } : Sanitize.PxRec)) := by
+    exact mapE_map_ok _ _ _ _ (fun p _ => cooRec_cooRow d p)
+  rw [hrecs]
+  simp only []
+  -- the sanitizer: shift back, nothing to reflect, sort
+  have hsan : ∃ san, Sanitize.sanitizePixels (LoadOpts.sanitize { oneBased := d, symm := symm })
+        (qs.map fun p => ({ b1 := (p.i : Int) + dI d, b2 := (p.j : Int) + dI d, u := [p.v] } : Sanitize.PxRec))
+        = .ok san ∧ (san.map fun r => (r.key, r.val)).Perm (qs.map kvOf) := by
+    unfold Sanitize.sanitizePixels
+    have hshift : (qs.map fun p => ({ b1 := (p.i : Int) + dI d, b2 := (p.j : Int) + dI d, u := [p.v] } : Sanitize.PxRec)).map
+        (Sanitize.PxRec.shift (LoadOpts.sanitize { oneBased := d, symm := symm }))
+        = qs.map fun p => ({ b1 := (p.i : Int), b2 := (p.j : Int), u := [p.v] } : Sanitize.PxRec) := by
+      rw [List.map_map]
+      apply List.map_congr_left
+      intro p _
+      cases d <;> simp [Sanitize.PxRec.shift, LoadOpts.sanitize, dI]
+    rw [hshift]
+    have htril : Sanitize.trilPx (LoadOpts.sanitize { oneBased := d, symm := symm })
+        (qs.map fun p => ({ b1 := (p.i : Int), b2 := (p.j : Int), u := [p.v] } : Sanitize.PxRec))
+        = .ok (qs.map fun p => ({ b1 := (p.i : Int), b2 := (p.j : Int), u := [p.v] } : Sanitize.PxRec)) := by
+      unfold Sanitize.trilPx
+      cases hsym : symm with
+      | false => simp [LoadOpts.sanitize, LoadOpts.tril]
+      | true =>
+        simp only [LoadOpts.sanitize, LoadOpts.tril, if_true, Bool.false_eq_true, if_false]
+        congr 1
+        rw [List.map_map]
+        apply List.map_congr_left
+        intro p hp
+        have := hq.triu hsym p hp
+        simp only [Function.comp, Sanitize.PxRec.orient, Sanitize.PxRec.isTril]
+        have : ¬ ((p.i : Int) > (p.j : Int)) := by omega
+        simp [this]
+    rw [htril]
+    simp only [LoadOpts.sanitize, if_true]
+    refine ⟨_, rfl, ?_⟩
+    have := (C05.sortPxRecs_perm (qs.map fun p => ({ b1 := (p.i : Int), b2 := (p.j : Int), u := [p.v] } : Sanitize.PxRec))).map
+      (fun r : Sanitize.PxRec => (r.key, r.val))
+    rw [List.map_map] at this
+    exact this
+  obtain ⟨san, h1, h2⟩ := hsan
+  rw [h1]
+  exact validateChunk_perm n symm qs hq _ h2
+
+/-- **load_dump_coo**: for a valid store `s` (strictly sorted, in range, upper-triangular when
+symmetric), (i) `cooler dump [--one-based-ids] [-H]` lists exactly the stored records, ids shifted
+when asked; (ii) `cooler load -f coo [--one-based] [-N for a square store]` with the same number of
+bins, fed those lines in ANY order and cut into reader chunks of ANY sizes, stores `s.px` again. -/
+theorem load_dump_coo (ops : Bal.Ops Int α) (s : Store α) (hv : ValidStore s)
+    (spansOf : Box → List (Nat × Nat)) (hsp : ∀ c, validSpans s.offs c (spansOf c) = true)
+    (hdr d : Bool) (qss : List Pixels) (hq : qss.flatten.Perm s.px) :
+    dumpRows ops s spansOf { header := hdr, oneBasedIds := d } = some (s.px.map (cooRow d)) ∧
+    loadCoo { oneBased := d, symm := s.symm } s.nbins cooFields "count"
+      (qss.map fun qs => qs.map fun p => rowCells (cooRow (α := α) d p)) = .ok s.px := by
+  constructor
+  · rw [dump_whole_stored ops s hv spansOf hsp _ rfl (by simp [useFill])]
+    exact mapO_eq_some_map _ _ _ (fun p _ => annotateRow_coo ops s hdr d p)
+  · have hok := chunkOK_of_valid s.nbins s.symm s.px hv.sorted hv.inRange hv.triu qss hq
+    obtain ⟨tables, h1, h2⟩ := aggregate_chunks s.px hv.sorted
+      (cooChunk (α := α) { oneBased := d, symm := s.symm } s.nbins cooFields "count")
+      (fun qs => qs.map fun p => rowCells (cooRow (α := α) d p)) qss hq
+      (fun qs hqs => cooChunk_dump s.nbins s.symm d qs (hok qs hqs))
+    unfold loadCoo
+    rw [h1]
+    simp only [h2]
+
+end load
+
+/-! ### BG2: the bin that contains the START of bin `k` is `k` -/
+
+section bg2
+open Sanitize
+variable {α : Type}
+
+/-- row `k` of a chromosome-sorted table is row `k − offset` of its chromosome's group -/
+theorem bins_group_index {bins : BinTable} (hs : ChromSorted bins) {k : Nat} {b : Bin}
+    (h : bins[k]? = some b) :
+    ∃ k', k = chromOff bins b.chrom + k' ∧ (groupOf bins b.chrom)[k']? = some b := by
+  have e := C05.sorted_split hs b.chrom
+  have hk : bins[k]? = (bins.filter (fun x => decide (x.chrom < b.chrom)) ++
+      bins.filter (fun x => decide (x.chrom = b.chrom)) ++ bins.filter (fun x => decide (b.chrom < x.chrom)))[k]? :=
+    congrArg (fun l => l[k]?) e
+  rw [h, List.append_assoc] at hk
+  rw [C05.chromOff_eq_length]
+  rcases Nat.lt_or_ge k (bins.filter (fun x => decide (x.chrom < b.chrom))).length with h1 | h1
+  · rw [List.getElem?_append_left h1] at hk
+    have := (List.mem_filter.mp (List.mem_of_getElem? hk.symm)).2
+    simp at this
+  · rw [List.getElem?_append_right h1] at hk
+    rcases Nat.lt_or_ge (k - (bins.filter (fun x => decide (x.chrom < b.chrom))).length)
+        (bins.filter (fun x => decide (x.chrom = b.chrom))).length with h2 | h2
+    · rw [List.getElem?_append_left h2] at hk
+      exact ⟨k - (bins.filter (fun x => decide (x.chrom < b.chrom))).length, by omega, hk.symm⟩
+    · rw [List.getElem?_append_right h2] at hk
+      have := (List.mem_filter.mp (List.mem_of_getElem? hk.symm)).2
+      simp at this
+
+theorem tiles_start_lt_stop {g : List Bin} : ∀ {s : Nat}, TilesFrom s g → ∀ b ∈ g, b.start < b.stop := by
+  induction g with
+  | nil => intro s _ b hb; simp at hb
+  | cons x rest ih =>
+    intro s h b hb
+    obtain ⟨_, h2, h3⟩ := h
+    rcases List.mem_cons.mp hb with e | hb
+    · subst e; exact h2
+    · exact ih h3 b hb
+
+theorem tiles_stop_le_last {g : List Bin} : ∀ {s : Nat}, TilesFrom s g → ∀ b ∈ g, b.stop ≤ lastStop g := by
+  induction g with
+  | nil => intro s _ b hb; simp at hb
+  | cons x rest ih =>
+    intro s h b hb
+    obtain ⟨_, h2, h3⟩ := h
+    cases rest with
+    | nil =>
+      simp at hb; subst hb
+      simp [lastStop]
+    | cons y r =>
+      rw [C05.lastStop_cons_cons]
+      rcases List.mem_cons.mp hb with e | hb
+      · subst e
+        have hy := ih h3 y (List.mem_cons_self)
+        obtain ⟨h4, h5, _⟩ := h3
+        omega
+      · exact ih h3 b hb
+
+/-- facts about row `k` of a valid table: its start lies inside its chromosome, and the bin
+containing its start is `k` itself -/
+theorem bin_start_facts {bins : BinTable} (hT : TableOK bins) {k : Nat} {b : Bin} (h : bins[k]? = some b) :
+    (b.start : Int) < (chromLen bins b.chrom : Int) ∧ binOf bins b.chrom (b.start : Int) = some (k : Int) := by
+  obtain ⟨k', hk, hg⟩ := bins_group_index hT.1 h
+  have hne : groupOf bins b.chrom ≠ [] := by
+    intro e; rw [e] at hg; simp at hg
+  have hv := hT.2 _ (C05.groupOf_mem_groups hne)
+  have hmem := List.mem_of_getElem? hg
+  have h1 := tiles_start_lt_stop hv.2 b hmem
+  have h2 := tiles_stop_le_last hv.2 b hmem
+  constructor
+  · unfold chromLen; omega
+  · have := C05.binOfNat_of_group hT.1 hv.2 hg (Nat.le_refl _) h1
+    unfold binOf
+    have hneg : ¬ ((b.start : Int) < 0) := by omega
+    simp only [hneg, if_false, Int.toNat_natCast, this, Option.map_some, hk]
+    rfl
+
+/-- rows in table order are in (chromosome, start) order -/
+theorem bins_order {bins : BinTable} (hT : TableOK bins) {i j : Nat} {bi bj : Bin}
+    (hi : bins[i]? = some bi) (hj : bins[j]? = some bj) (hij : i ≤ j) :
+    bi.chrom < bj.chrom ∨ (bi.chrom = bj.chrom ∧ bi.start ≤ bj.start) := by
+  rcases Nat.eq_or_lt_of_le hij with e | hlt
+  · subst e
+    rw [hi] at hj; cases hj
+    exact Or.inr ⟨rfl, Nat.le_refl _⟩
+  · have hil : i < bins.length := by
+      rcases Nat.lt_or_ge i bins.length with h' | h'
+      · exact h'
+      · rw [List.getElem?_eq_none h'] at hi; simp at hi
+    have hjl : j < bins.length := by
+      rcases Nat.lt_or_ge j bins.length with h' | h'
+      · exact h'
+      · rw [List.getElem?_eq_none h'] at hj; simp at hj
+    have hc := (List.pairwise_iff_getElem.mp hT.1) i j hil hjl hlt
+    have ei : bins[i] = bi := by
+      have := List.getElem?_eq_getElem hil; rw [hi] at this; exact (Option.some.inj this).symm
+    have ej : bins[j] = bj := by
+      have := List.getElem?_eq_getElem hjl; rw [hj] at this; exact (Option.some.inj this).symm
+    rw [ei, ej] at hc
+    rcases Nat.eq_or_lt_of_le hc with e | hlt'
+    · right
+      refine ⟨e, ?_⟩
+      obtain ⟨i', hki, hgi⟩ := bins_group_index hT.1 hi
+      obtain ⟨j', hkj, hgj⟩ := bins_group_index hT.1 hj
+      rw [← e] at hkj hgj
+      have hne : groupOf bins bi.chrom ≠ [] := by
+        intro e'; rw [e'] at hgi; simp at hgi
+      have hv := hT.2 _ (C05.groupOf_mem_groups hne)
+      have := C05.tiles_before hv.2 hgi hgj (by omega)
+      have := tiles_start_lt_stop hv.2 bi (List.mem_of_getElem? hgi)
+      omega
+    · exact Or.inl hlt'
+
+theorem decodeChrom_get {names : List String} (hn : names.Nodup) {c : Nat} {nm : String}
+    (h : names[c]? = some nm) : decodeChrom names nm = some c := by
+  unfold decodeChrom
+  rw [List.idxOf?_eq_some_iff]
+  have hc : c < names.length := by
+    rcases Nat.lt_or_ge c names.length with h' | h'
+    · exact h'
+    · rw [List.getElem?_eq_none h'] at h; simp at h
+  have ec : names[c] = nm := by
+    have := List.getElem?_eq_getElem hc; rw [h] at this; exact (Option.some.inj this).symm
+  refine ⟨hc, ec, ?_⟩
+  intro j hj hje
+  have := (List.pairwise_iff_getElem.mp (List.nodup_iff_pairwise_ne.mp hn)) j c (by omega) hc hj
+  exact this (hje.trans ec.symm)
+
+/-- both sides of `annotate(chunk, bins[["chrom","start","end"]])` for one bin -/
+theorem sideCols_coord (s : Store α) (sfx : String) (k : Nat) :
+    sideCols s coordFields sfx k = (s.bins[k]?).bind fun b => (s.chromNames[b.chrom]?).map fun nm =>
+      [("chrom" ++ sfx, Val.str nm), ("start" ++ sfx, Val.int b.start), ("end" ++ sfx, Val.int b.stop)] := by
+  unfold sideCols coordFields
+  simp only [mapO, binField]
+  cases hb : s.bins[k]? with
+  | none => simp
+  | some b =>
+    cases hn : s.chromNames[b.chrom]? with
+    | none => simp [hn]
+    | some nm => simp [hn]
+
+/-- the BG2 line of a pixel, given its two bins and their chromosome names -/
+def bg2Cells (ni : String) (bi : Bin) (nj : String) (bj : Bin) (d : Bool) (v : Int) : List (Val α) :=
+  [.str ni, .int ((bi.start : Int) + dI d), .int bi.stop, .str nj, .int ((bj.start : Int) + dI d), .int bj.stop, .int v]
+
+/-- `cooler dump --join [--one-based-starts]` on one pixel: it succeeds iff both bins and their names
+exist, and the line then is `bg2Cells` -/
+theorem annotateRow_bg2 (ops : Bal.Ops Int α) (s : Store α) (h d : Bool) (p : Px) (cells : List (Val α))
+    (hr : (annotateRow ops s { header := h, join := true, oneBasedStarts := d } p).map rowCells = some cells) :
+    ∃ bi bj ni nj, s.bins[p.i]? = some bi ∧ s.bins[p.j]? = some bj ∧ s.chromNames[bi.chrom]? = some ni ∧
+      s.chromNames[bj.chrom]? = some nj ∧ cells = bg2Cells ni bi nj bj d p.v := by
+  unfold annotateRow extraCols balStage joinStage joinRow at hr
+  simp only [sideCols_coord, Bool.false_eq_true, if_false, if_true, Option.bind_some] at hr
+  cases hbi : s.bins[p.i]? with
+  | none => simp [hbi] at hr
+  | some bi =>
+    cases hni : s.chromNames[bi.chrom]? with
+    | none => simp [hbi, hni] at hr
+    | some ni =>
+      cases hbj : s.bins[p.j]? with
+      | none => simp [hbi, hni, hbj] at hr
+      | some bj =>
+        cases hnj : s.chromNames[bj.chrom]? with
+        | none => simp [hbi, hni, hbj, hnj] at hr
+        | some nj =>
+          refine ⟨bi, bj, ni, nj, rfl, rfl, hni, hnj, ?_⟩
+          simp only [hbi, hni, hbj, hnj, Option.bind_some, Option.map_some] at hr
+          cases d <;>
+            simp [finish, bumpIf, bump, baseRow, idCols, startCols, Val.succ, rowCells, List.filter] at hr <;>
+            simp [← hr, bg2Cells, dI]
+
+/-- a BG2 record is read from wherever its seven fields are declared to be -/
+theorem bg2Rec_of_layout (contigs : List String) (fields : List (String × Nat)) (value : String)
+    (row : List (Val α)) (hinj : (fields.map (·.2)).Nodup) (hnames : (fields.map (·.1)).Nodup)
+    (hrange : ∀ fc ∈ fields, fc.2 < row.length) (k1 k2 k3 k4 k5 k6 kv : Nat)
+    (c1 c2 : String) (s1 e1 s2 e2 v : Int)
+    (h1 : ("chrom1", k1) ∈ fields) (h2 : ("start1", k2) ∈ fields) (h3 : ("end1", k3) ∈ fields)
+    (h4 : ("chrom2", k4) ∈ fields) (h5 : ("start2", k5) ∈ fields) (h6 : ("end2", k6) ∈ fields)
+    (h7 : (value, kv) ∈ fields)
+    (r1 : row[k1]? = some (.str c1)) (r2 : row[k2]? = some (.int s1)) (r3 : row[k3]? = some (.int e1))
+    (r4 : row[k4]? = some (.str c2)) (r5 : row[k5]? = some (.int s2)) (r6 : row[k6]? = some (.int e2))
+    (r7 : row[kv]? = some (.int v)) :
+    bg2Rec contigs fields value row =
+      .ok { c1 := decodeChrom contigs c1, p1 := s1, c2 := decodeChrom contigs c2, p2 := s2,
+            x1 := [e1], x2 := [e2], u := [v] } := by
+  obtain ⟨parsed, hp, _, hl⟩ := columns_any_layout fields row hinj hnames hrange
+  unfold bg2Rec
+  rw [hp]
+  have e1' := hl _ h1
+  have e2' := hl _ h2
+  have e3' := hl _ h3
+  have e4' := hl _ h4
+  have e5' := hl _ h5
+  have e6' := hl _ h6
+  have e7' := hl _ h7
+  simp only [] at e1' e2' e3' e4' e5' e6' e7'
+  simp only [fieldInt, fieldStr, e1', e2', e3', e4', e5', e6', e7', r1, r2, r3, r4, r5, r6, r7, Val.asInt,
+    Val.asStr]
+
+theorem bg2Rec_cells (contigs : List String) (ni : String) (bi : Bin) (nj : String) (bj : Bin) (d : Bool) (v : Int) :
+    bg2Rec contigs bg2Fields "count" (bg2Cells (α := α) ni bi nj bj d v) =
+      .ok { c1 := decodeChrom contigs ni, p1 := (bi.start : Int) + dI d, c2 := decodeChrom contigs nj,
+            p2 := (bj.start : Int) + dI d, x1 := [(bi.stop : Int)], x2 := [(bj.stop : Int)], u := [v] } :=
+  bg2Rec_of_layout contigs bg2Fields "count" _ (by decide) (by decide)
+    (by intro fc hfc; simp [bg2Fields] at hfc
+        rcases hfc with rfl | rfl | rfl | rfl | rfl | rfl | rfl <;> simp [bg2Cells])
+    0 1 2 3 4 5 6 _ _ _ _ _ _ _ (by simp [bg2Fields]) (by simp [bg2Fields]) (by simp [bg2Fields])
+    (by simp [bg2Fields]) (by simp [bg2Fields]) (by simp [bg2Fields]) (by simp [bg2Fields])
+    rfl rfl rfl rfl rfl rfl rfl
+
+/-- what the loader needs to know about the line of a pixel -/
+structure LineOK (s : Store α) (d : Bool) (lineOf : Px → List (Val α)) (p : Px) : Prop where
+  ex : ∃ bi bj ni nj, s.bins[p.i]? = some bi ∧ s.bins[p.j]? = some bj ∧ s.chromNames[bi.chrom]? = some ni ∧
+      s.chromNames[bj.chrom]? = some nj ∧ lineOf p = bg2Cells ni bi nj bj d p.v
+
+/-- one reader chunk of dumped BG2 lines is stored as (a rearrangement of) its pixels -/
+theorem bg2Chunk_dump (s : Store α) (hT : TableOK s.bins) (hn : s.chromNames.Nodup) (d : Bool)
+    (lineOf : Px → List (Val α)) (qs : Pixels) (hq : ChunkOK s.nbins s.symm qs)
+    (hl : ∀ p ∈ qs, LineOK s d lineOf p) :
+    ∃ t, bg2Chunk { oneBased := d, symm := s.symm } s.bins s.chromNames bg2Fields "count" (qs.map lineOf)
+        = .ok t ∧ t.Perm qs := by
+  -- total versions of the lookups (proof device only)
+  let binAt : Nat → Bin := fun k => (s.bins[k]?).getD ⟨0, 0, 0⟩
+  have hbin : ∀ p ∈ qs, s.bins[p.i]? = some (binAt p.i) ∧ s.bins[p.j]? = some (binAt p.j) := by
+    intro p hp
+    obtain ⟨bi, bj, ni, nj, h1, h2, _, _, _⟩ := (hl p hp).ex
+    simp [binAt, h1, h2]
+  let recOf : Px → Rec := fun p =>
+    { c1 := some (binAt p.i).chrom, p1 := ((binAt p.i).start : Int) + dI d,
+      c2 := some (binAt p.j).chrom, p2 := ((binAt p.j).start : Int) + dI d,
+      x1 := [((binAt p.i).stop : Int)], x2 := [((binAt p.j).stop : Int)], u := [p.v] }
+  have hrecs : Bal.mapE (bg2Rec s.chromNames bg2Fields "count") (qs.map lineOf) = .ok (qs.map recOf) := by
+    apply mapE_map_ok
+    intro p hp
+    obtain ⟨bi, bj, ni, nj, h1, h2, h3, h4, h5⟩ := (hl p hp).ex
+    have e1 : binAt p.i = bi := by simp [binAt, h1]
+    have e2 : binAt p.j = bj := by simp [binAt, h2]
+    rw [h5, bg2Rec_cells, decodeChrom_get hn h3, decodeChrom_get hn h4]
+    simp only [recOf, e1, e2]
+  unfold bg2Chunk
+  rw [hrecs]
+  simp only []
+  -- the anchors of the records
+  let o : Opts := LoadOpts.sanitize { oneBased := d, symm := s.symm }
+  let ancOf : Px → Anchor := fun p =>
+    ⟨(binAt p.i).chrom, ((binAt p.i).start : Int), (binAt p.j).chrom, ((binAt p.j).start : Int), p.v⟩
+  have hanc : anchors o (qs.map recOf) = qs.map ancOf := by
+    unfold anchors
+    rw [List.filterMap_map]
+    apply C05.filterMap_eq_map_of
+    intro p _
+    cases d <;> simp [Function.comp, recOf, ancOf, anchorOf, o, LoadOpts.sanitize, dI, firstVal]
+  have hinside : ∀ a ∈ qs.map ancOf, a.inside s.bins := by
+    intro a ha
+    obtain ⟨p, hp, rfl⟩ := List.mem_map.mp ha
+    obtain ⟨h1, h2⟩ := hbin p hp
+    have f1 := (bin_start_facts hT h1).1
+    have f2 := (bin_start_facts hT h2).1
+    exact ⟨by simp [ancOf], f1, by simp [ancOf], f2⟩
+  have hnolower : s.symm = true → ∀ p ∈ qs, (ancOf p).lower = false := by
+    intro hs p hp
+    obtain ⟨h1, h2⟩ := hbin p hp
+    have := bins_order hT h1 h2 (hq.triu hs p hp)
+    simp only [Anchor.lower, ancOf, Bool.or_eq_false_iff, Bool.and_eq_false_iff, decide_eq_false_iff_not]
+    omega
+  have horient : orientAnchors o.tril (qs.map ancOf) = qs.map ancOf := by
+    cases hs : s.symm with
+    | false => simp [o, LoadOpts.sanitize, LoadOpts.tril, hs, orientAnchors]
+    | true =>
+      simp only [o, LoadOpts.sanitize, LoadOpts.tril, hs, if_true, Bool.false_eq_true, if_false,
+        orientAnchors]
+      conv => rhs; rw [← List.map_id (qs.map ancOf)]
+      apply List.map_congr_left
+      intro a ha
+      obtain ⟨p, hp, rfl⟩ := List.mem_map.mp ha
+      simp [Anchor.upper, hnolower hs p hp]
+  have hkeys : (qs.map ancOf).map (keyOf s.bins (getBinsize s.bins)) = qs.map kvOf := by
+    rw [List.map_map]
+    apply List.map_congr_left
+    intro p hp
+    obtain ⟨h1, h2⟩ := hbin p hp
+    have hin := hinside (ancOf p) (List.mem_map_of_mem hp)
+    have hpx := C05.keyOf_eq_pixelOf hT (C05.binsize_truthful hT) hin
+    have g1 := (bin_start_facts hT h1).2
+    have g2 := (bin_start_facts hT h2).2
+    have : pixelOf s.bins (ancOf p) = some ((p.i : Int), (p.j : Int)) := by
+      simp only [pixelOf, ancOf, g1, g2]
+    rw [this] at hpx
+    have hk := (Option.some.inj hpx).symm
+    simp only [Function.comp, kvOf]
+    ext
+    · simp [hk]
+    · simp [hk]
+    · simp [keyOf, ancOf]
+  have hpipe : anchorPipeline s.bins (getBinsize s.bins) o (anchors o (qs.map recOf)) = .ok (qs.map kvOf) := by
+    rw [hanc, C05.pipeline_of_inside _ _ hinside]
+    have t1 : ¬ (o.tril = .raise ∧ (qs.map ancOf).any Anchor.lower = true) := by
+      intro h; cases hs : s.symm <;> simp [o, LoadOpts.sanitize, LoadOpts.tril, hs] at h
+    have t2 : ¬ (o.tril = .bogus ∧ (qs.map ancOf).any Anchor.lower = true) := by
+      intro h; cases hs : s.symm <;> simp [o, LoadOpts.sanitize, LoadOpts.tril, hs] at h
+    rw [if_neg t1, if_neg t2, horient, hkeys]
+  obtain ⟨outs, ho, hperm⟩ := (C05.sanitizeWith_sim s.bins (getBinsize s.bins) o (qs.map recOf)).2 _ hpipe
+  have ho' : sanitizeRecords s.bins (LoadOpts.sanitize { oneBased := d, symm := s.symm }) (qs.map recOf)
+      = .ok outs := ho
+  rw [ho']
+  exact validateChunk_perm s.nbins s.symm qs hq _ hperm
+
+/-- **load_dump_bg2**: for a valid store over a valid bin table with distinct chromosome names, if
+`cooler dump --join [--one-based-starts] [-H]` prints the line `lineOf p` for every stored pixel `p`,
+then (i) the dump is exactly those lines, in storage order, and (ii) `cooler load -f bg2 [--one-based]
+[-N for a square store]` with the same bin table, fed the lines in ANY order and cut into reader
+chunks of ANY sizes, stores `s.px` again.  The binning anchor is `start`: the bin containing the
+start of bin `k` is `k` (`bin_start_facts`). -/
+theorem load_dump_bg2 (ops : Bal.Ops Int α) (s : Store α) (hv : ValidStore s) (hT : TableOK s.bins)
+    (hn : s.chromNames.Nodup) (spansOf : Box → List (Nat × Nat))
+    (hsp : ∀ c, validSpans s.offs c (spansOf c) = true) (hdr d : Bool) (lineOf : Px → List (Val α))
+    (hline : ∀ p ∈ s.px,
+      (annotateRow ops s { header := hdr, join := true, oneBasedStarts := d } p).map rowCells = some (lineOf p))
+    (qss : List Pixels) (hq : qss.flatten.Perm s.px) :
+    (dumpRows ops s spansOf { header := hdr, join := true, oneBasedStarts := d }).map (List.map rowCells)
+      = some (s.px.map lineOf) ∧
+    loadBg2 { oneBased := d, symm := s.symm } s.bins s.chromNames bg2Fields "count"
+      (qss.map fun qs => qs.map lineOf) = .ok s.px := by
+  constructor
+  · rw [dump_whole_stored ops s hv spansOf hsp _ rfl (by simp [useFill]), ← mapO_map]
+    exact mapO_eq_some_map _ _ _ hline
+  · have hok := chunkOK_of_valid s.nbins s.symm s.px hv.sorted hv.inRange hv.triu qss hq
+    have hmem : ∀ qs ∈ qss, ∀ p ∈ qs, p ∈ s.px := fun qs hqs p hp =>
+      hq.mem_iff.mp ((List.sublist_flatten_of_mem hqs).subset hp)
+    obtain ⟨tables, h1, h2⟩ := aggregate_chunks s.px hv.sorted
+      (bg2Chunk (α := α) { oneBased := d, symm := s.symm } s.bins s.chromNames bg2Fields "count")
+      (fun qs => qs.map lineOf) qss hq
+      (fun qs hqs => bg2Chunk_dump s hT hn d lineOf qs (hok qs hqs)
+        (fun p hp => ⟨annotateRow_bg2 ops s hdr d p _ (hline p (hmem qs hqs p hp))⟩))
+    unfold loadBg2
+    rw [h1]
+    simp only [h2]
+
+end bg2
+
+/-! ## 4. `cooler cload pairs`: the layout is irrelevant -/
+
+section pairs
+variable {α : Type}
+
+/-- **pairs_any_layout**: the record parsed from a pairs line is determined by the values found at the
+declared columns — for every injective layout, monotone or not, inside a line of any width -/
+theorem pairs_any_layout (contigs : List String) (fields : List (String × Nat)) (value : Option String)
+    (row : List (Val α)) (hinj : (fields.map (·.2)).Nodup) (hnames : (fields.map (·.1)).Nodup)
+    (hrange : ∀ fc ∈ fields, fc.2 < row.length) (k1 k2 k3 k4 : Nat) (c1 c2 : String) (a1 a2 : Int)
+    (h1 : ("chrom1", k1) ∈ fields) (h2 : ("pos1", k2) ∈ fields) (h3 : ("chrom2", k3) ∈ fields)
+    (h4 : ("pos2", k4) ∈ fields)
+    (r1 : row[k1]? = some (.str c1)) (r2 : row[k2]? = some (.int a1)) (r3 : row[k3]? = some (.str c2))
+    (r4 : row[k4]? = some (.int a2)) (u : List Int)
+    (hu : match value with
+      | none => u = []
+      | some f => ∃ kv v, (f, kv) ∈ fields ∧ row[kv]? = some (.int v) ∧ u = [v]) :
+    pairsRec contigs fields value row =
+      .ok { c1 := decodeChrom contigs c1, p1 := a1, c2 := decodeChrom contigs c2, p2 := a2, u := u } := by
+  obtain ⟨parsed, hp, _, hl⟩ := columns_any_layout fields row hinj hnames hrange
+  unfold pairsRec
+  rw [hp]
+  have e1 := hl _ h1
+  have e2 := hl _ h2
+  have e3 := hl _ h3
+  have e4 := hl _ h4
+  simp only [] at e1 e2 e3 e4
+  have hopt : fieldOpt parsed value = .ok u := by
+    cases value with
+    | none => simp only [] at hu; subst hu; rfl
+    | some f =>
+      obtain ⟨kv, v, hm, hr, rfl⟩ := hu
+      have := hl _ hm
+      simp only [] at this
+      simp only [fieldOpt, fieldInt, this, hr, Val.asInt]
+      rfl
+  simp only [fieldInt, fieldStr, e1, e2, e3, e4, r1, r2, r3, r4, Val.asInt, Val.asStr, hopt]
+
+/-- hence two files that carry the same values under two different layouts give the same record, line
+by line (and so the same cooler: `cloadPairs` only sees the records) -/
+theorem pairs_layout_independent (contigs : List String) (f f' : List (String × Nat)) (row row' : List (Val α))
+    (hinj : (f.map (·.2)).Nodup) (hnames : (f.map (·.1)).Nodup) (hrange : ∀ fc ∈ f, fc.2 < row.length)
+    (hinj' : (f'.map (·.2)).Nodup) (hnames' : (f'.map (·.1)).Nodup) (hrange' : ∀ fc ∈ f', fc.2 < row'.length)
+    (k1 k2 k3 k4 k1' k2' k3' k4' : Nat) (c1 c2 : String) (a1 a2 : Int)
+    (h1 : ("chrom1", k1) ∈ f) (h2 : ("pos1", k2) ∈ f) (h3 : ("chrom2", k3) ∈ f) (h4 : ("pos2", k4) ∈ f)
+    (h1' : ("chrom1", k1') ∈ f') (h2' : ("pos1", k2') ∈ f') (h3' : ("chrom2", k3') ∈ f') (h4' : ("pos2", k4') ∈ f')
+    (r1 : row[k1]? = some (.str c1)) (r2 : row[k2]? = some (.int a1)) (r3 : row[k3]? = some (.str c2))
+    (r4 : row[k4]? = some (.int a2))
+    (r1' : row'[k1']? = some (.str c1)) (r2' : row'[k2']? = some (.int a1)) (r3' : row'[k3']? = some (.str c2))
+    (r4' : row'[k4']? = some (.int a2)) :
+    pairsRec contigs f none row = pairsRec contigs f' none row' := by
+  rw [pairs_any_layout contigs f none row hinj hnames hrange k1 k2 k3 k4 c1 c2 a1 a2 h1 h2 h3 h4 r1 r2 r3 r4 [] rfl,
+    pairs_any_layout contigs f' none row' hinj' hnames' hrange' k1' k2' k3' k4' c1 c2 a1 a2 h1' h2' h3' h4'
+      r1' r2' r3' r4' [] rfl]
+
+/-- non-vacuity: `-c1 5 -p1 2 -c2 1 -p2 7` in a 7-column file and `-c1 1 -p1 2 -c2 3 -p2 4` in a
+4-column file -/
+example : pairsRec (α := Int) ["c0", "c1"] (pairsFields 4 1 0 6 []) none
+      [.str "c1", .int 12, .str ".", .str ".", .str "c0", .str ".", .int 3]
+    = pairsRec (α := Int) ["c0", "c1"] (pairsFields 0 1 2 3 []) none [.str "c0", .int 12, .str "c1", .int 3] := by
+  decide
+
+end pairs
+
+/-! ## 5. `parse_field_param` -/
+
+section fieldparam
+
+theorem splitOn_no_sep (c : Char) (l : List Char) (h : c ∉ l) : splitOn c l = [l] := by
+  induction l with
+  | nil => rfl
+  | cons x xs ih =>
+    have hx : x ≠ c := fun e => h (e ▸ List.mem_cons_self)
+    have hxs : c ∉ xs := fun e => h (List.mem_cons_of_mem _ e)
+    simp only [splitOn, hx, if_false, ih hxs]
+
+theorem splitOn_append (c : Char) (a b : List Char) (h : c ∉ a) :
+    splitOn c (a ++ c :: b) = a :: splitOn c b := by
+  induction a with
+  | nil => simp [splitOn]
+  | cons x xs ih =>
+    have hx : x ≠ c := fun e => h (e ▸ List.mem_cons_self)
+    have hxs : c ∉ xs := fun e => h (List.mem_cons_of_mem _ e)
+    simp only [List.cons_append, splitOn, hx, if_false, ih hxs]
+
+theorem splitOn_ne_nil (c : Char) (l : List Char) : splitOn c l ≠ [] := by
+  cases l with
+  | nil => simp [splitOn]
+  | cons x xs =>
+    simp only [splitOn]
+    split
+    · simp
+    · split <;> simp
+
+/-- `c.join(parts)` -/
+def joinWith (c : Char) : List (List Char) → List Char
+  | [] => []
+  | [x] => x
+  | x :: y :: rest => x ++ c :: joinWith c (y :: rest)
+
+theorem splitOn_joinWith (c : Char) (parts : List (List Char)) (hne : parts ≠ [])
+    (h : ∀ p ∈ parts, c ∉ p) : splitOn c (joinWith c parts) = parts := by
+  induction parts with
+  | nil => exact absurd rfl hne
+  | cons x rest ih =>
+    cases rest with
+    | nil => exact splitOn_no_sep c x (h x (List.mem_cons_self))
+    | cons y r =>
+      simp only [joinWith]
+      rw [splitOn_append c x _ (h x (List.mem_cons_self)),
+        ih (by simp) (fun p hp => h p (List.mem_cons_of_mem _ hp))]
+
+/-- the last value given for a property (a later item overrides an earlier one) -/
+def lastOf (key : List Char) (items : List (List Char × List Char)) (init : Option (List Char)) :
+    Option (List Char) :=
+  items.foldl (fun acc kv => if kv.1 = key then some kv.2 else acc) init
+
+def renderItem (kv : List Char × List Char) : List Char := kv.1 ++ '=' :: kv.2
+
+/-- a well-formed `prop=value` item for the given command: `dtype=<numpy dtype>`, or `agg=<name>`
+where aggregation is configurable -/
+def ItemOK (isDtype : List Char → Bool) (includesAgg : Bool) (kv : List Char × List Char) : Prop :=
+  '=' ∉ kv.1 ∧ '=' ∉ kv.2 ∧
+    ((kv.1 = "dtype".toList ∧ isDtype kv.2 = true) ∨ (kv.1 = "agg".toList ∧ includesAgg = true))
+
+theorem parseProps_ok (isDtype : List Char → Bool) (includesAgg : Bool)
+    (items : List (List Char × List Char)) (h : ∀ kv ∈ items, ItemOK isDtype includesAgg kv)
+    (dt ag : Option (List Char)) :
+    parseProps isDtype includesAgg (items.map renderItem) dt ag =
+      .ok (lastOf "dtype".toList items dt, lastOf "agg".toList items ag) := by
+  induction items generalizing dt ag with
+  | nil => rfl
+  | cons kv rest ih =>
+    obtain ⟨h1, h2, h3⟩ := h kv (List.mem_cons_self)
+    have hs : splitOn '=' (renderItem kv) = [kv.1, kv.2] := by
+      unfold renderItem
+      rw [splitOn_append _ _ _ h1, splitOn_no_sep _ _ h2]
+    have ihr := ih (fun x hx => h x (List.mem_cons_of_mem _ hx))
+    simp only [List.map_cons, parseProps, hs]
+    rcases h3 with ⟨hk, hd⟩ | ⟨hk, ha⟩
+    · have hne : ¬ (kv.1 = "agg".toList) := by rw [hk]; decide
+      simp only [hk, if_true, hd, ihr, lastOf, List.foldl_cons, hne, if_false]
+      simp [hk]
+    · have hne : ¬ (kv.1 = "dtype".toList) := by rw [hk]; decide
+      subst ha
+      simp only [hne, if_false, hk, and_self, if_true, ihr, lastOf, List.foldl_cons]
+      simp [hk]
+
+/-- **parseFieldParam_spec (grammar)**: `name=N` with `N ≥ 1`, optionally followed by `:` and one or
+more well-formed `prop=value` items separated by commas, parses to the name, the ZERO-based column
+`N − 1`, and the last `dtype` / `agg` given -/
+theorem parseFieldParam_spec (isDtype : List Char → Bool) (includesAgg : Bool) (name num : List Char)
+    (k : Nat) (hname : ':' ∉ name ∧ '=' ∉ name) (hnum : ':' ∉ num ∧ '=' ∉ num)
+    (hk : pyInt num = some ((k : Int) + 1)) (items : List (List Char × List Char))
+    (hitems : ∀ kv ∈ items, ItemOK isDtype includesAgg kv ∧ ':' ∉ renderItem kv ∧ ',' ∉ renderItem kv) :
+    parseFieldParam isDtype true includesAgg
+        (name ++ '=' :: num ++ (if items = [] then [] else ':' :: joinWith ',' (items.map renderItem)))
+      = .ok ⟨name, some k, lastOf "dtype".toList items none, lastOf "agg".toList items none⟩ := by
+  have hpre : ':' ∉ name ++ '=' :: num := by
+    intro h
+    rcases List.mem_append.mp h with h | h
+    · exact hname.1 h
+    · rcases List.mem_cons.mp h with h | h
+      · exact absurd h (by decide)
+      · exact hnum.1 h
+  have hprefix : parsePrefix (name ++ '=' :: num) = .ok (name, some k) := by
+    unfold parsePrefix
+    rw [splitOn_append _ _ _ hname.2, splitOn_no_sep _ _ hnum.2]
+    simp only [hk]
+    have : ¬ ((k : Int) + 1 - 1 < 0) := by omega
+    simp only [this, if_false]
+    congr 3
+    omega
+  unfold parseFieldParam
+  by_cases he : items = []
+  · subst he
+    simp only [if_true, List.append_nil]
+    rw [splitOn_no_sep _ _ hpre]
+    simp only [if_true, hprefix]
+    rfl
+  · simp only [he, if_false]
+    have hjoin : ':' ∉ joinWith ',' (items.map renderItem) := by
+      clear he hprefix hpre
+      induction items with
+      | nil => simp [joinWith]
+      | cons kv rest ih =>
+        have h1 := (hitems kv (List.mem_cons_self)).2.1
+        cases rest with
+        | nil => simpa [joinWith] using h1
+        | cons y r =>
+          simp only [List.map_cons, joinWith]
+          intro h
+          rcases List.mem_append.mp h with h | h
+          · exact h1 h
+          · rcases List.mem_cons.mp h with h | h
+            · exact absurd h (by decide)
+            · exact ih (fun x hx => hitems x (List.mem_cons_of_mem _ hx)) h
+    rw [splitOn_append _ _ _ hpre, splitOn_no_sep _ _ hjoin]
+    simp only [if_true, hprefix]
+    rw [splitOn_joinWith ',' (items.map renderItem) (by simpa using he)
+      (by intro p hp; obtain ⟨kv, hkv, rfl⟩ := List.mem_map.mp hp; exact (hitems kv hkv).2.2)]
+    rw [parseProps_ok isDtype includesAgg items (fun kv hkv => (hitems kv hkv).1)]
+
+/-- **refusals.**  More than one `:`; a field number that is not a number or is `< 1`; more than one
+`=` in the prefix; an item that is not `prop=value`; an unknown property; `agg` where aggregation is
+not configurable (`cooler load`); a `dtype` numpy does not know (a `TypeError`, not a usage error). -/
+theorem parseFieldParam_refusals (isDtype : List Char → Bool) (includesColnum includesAgg : Bool) :
+    (∀ a b c : List Char, ':' ∉ a → ':' ∉ b →
+      parseFieldParam isDtype includesColnum includesAgg (a ++ ':' :: b ++ ':' :: c) = .error .badParameter) ∧
+    (∀ name num : List Char, '=' ∉ name → '=' ∉ num → (∀ z, pyInt num = some z → z < 1) →
+      parsePrefix (name ++ '=' :: num) = .error .badParameter) ∧
+    (∀ a b c : List Char, '=' ∉ a → '=' ∉ b →
+      parsePrefix (a ++ '=' :: b ++ '=' :: c) = .error .badParameter) ∧
+    (∀ (item : List Char) rest dt ag, '=' ∉ item →
+      parseProps isDtype includesAgg (item :: rest) dt ag = .error .badParameter) ∧
+    (∀ (prop value : List Char) rest dt ag, '=' ∉ prop → '=' ∉ value → prop ≠ "dtype".toList →
+      (prop ≠ "agg".toList ∨ includesAgg = false) →
+      parseProps isDtype includesAgg (renderItem (prop, value) :: rest) dt ag = .error .badParameter) ∧
+    (∀ (value : List Char) rest dt ag, '=' ∉ value → isDtype value = false →
+      parseProps isDtype includesAgg (renderItem ("dtype".toList, value) :: rest) dt ag = .error .typeError) := by
+  refine ⟨?_, ?_, ?_, ?_, ?_, ?_⟩
+  · intro a b c ha hb
+    unfold parseFieldParam
+    rw [List.append_assoc, List.cons_append, splitOn_append _ _ _ ha, splitOn_append _ _ _ hb]
+    cases hs : splitOn ':' c with
+    | nil => exact absurd hs (splitOn_ne_nil _ _)
+    | cons x xs => rfl
+  · intro name num h1 h2 hz
+    unfold parsePrefix
+    rw [splitOn_append _ _ _ h1, splitOn_no_sep _ _ h2]
+    simp only []
+    cases hp : pyInt num with
+    | none => rfl
+    | some z =>
+      have := hz z hp
+      have h' : z - 1 < 0 := by omega
+      simp only [h', if_true]
+  · intro a b c ha hb
+    unfold parsePrefix
+    rw [List.append_assoc, List.cons_append, splitOn_append _ _ _ ha, splitOn_append _ _ _ hb]
+    cases hs : splitOn '=' c with
+    | nil => exact absurd hs (splitOn_ne_nil _ _)
+    | cons x xs => rfl
+  · intro item rest dt ag h
+    simp only [parseProps, splitOn_no_sep _ _ h]
+  · intro prop value rest dt ag h1 h2 h3 h4
+    have hs : splitOn '=' (renderItem (prop, value)) = [prop, value] := by
+      unfold renderItem; rw [splitOn_append _ _ _ h1, splitOn_no_sep _ _ h2]
+    have h4' : ¬ (prop = "agg".toList ∧ includesAgg = true) := by
+      rintro ⟨ha, hb⟩
+      rcases h4 with h4 | h4
+      · exact h4 ha
+      · rw [h4] at hb; exact Bool.noConfusion hb
+    simp only [parseProps, hs, h3, if_false, h4']
+  · intro value rest dt ag h1 h2
+    have hs : splitOn '=' (renderItem ("dtype".toList, value)) = ["dtype".toList, value] := by
+      unfold renderItem
+      have : '=' ∉ "dtype".toList := by decide
+      rw [splitOn_append _ _ _ this, splitOn_no_sep _ _ h1]
+    simp only [parseProps, hs, if_true, h2, Bool.false_eq_true, if_false]
+
+/-- non-vacuity and the two commands' grammars side by side -/
+example : parseFieldParam (fun d => d = "float".toList) true true "score=5:dtype=float,agg=mean".toList
+    = .ok ⟨"score".toList, some 4, some "float".toList, some "mean".toList⟩ := by rfl
+example : parseFieldParam (fun d => d = "float".toList) true false "score=5:dtype=float,agg=mean".toList
+    = .error .badParameter := by rfl
+example : parseFieldParam (fun d => d = "float".toList) true true "count:dtype=float".toList
+    = .ok ⟨"count".toList, none, some "float".toList, none⟩ := by rfl
+example : parseFieldParam (fun _ => true) true true "count=0".toList = .error .badParameter := by rfl
+example : parseFieldParam (fun _ => false) true true "count=2:dtype=nope".toList = .error .typeError := by rfl
+example : parseFieldParam (fun _ => true) false true "count=2".toList
+    = .ok ⟨"count=2".toList, none, none, none⟩ := by rfl
+
+end fieldparam
+
+/-! ## 6. resolution specs of `cooler zoomify -r` (a correspondence of the spellings) -/
+
+example : preferredSequence 1000 40000 true = [1000, 2000, 5000, 10000, 20000] := by decide
+example : preferredSequence 1000 40000 false = [1000, 2000, 4000, 8000, 16000, 32000] := by decide
+example : preferredSequence 5 100 true = [5, 10, 25, 50, 100] := by decide
+/-- the `<k>B` spelling (defect D10: the branch tested `endswith("n")` twice and `int("20b")` raised) -/
+example : expandResolutionSpec 1000 40000 ["20b".toList] = .ok [20, 40, 80, 160, 320, 640, 1280, 2560, 5120, 10240, 20480] := by
+  decide
+example : expandResolutionSpec 1000 12000 ["4dn".toList] = .ok [1000, 2000, 5000, 10000] := by decide
+example : expandResolutionSpec 1000 12000 ["2000".toList, "n".toList] = .ok [2000, 1000, 2000, 5000, 10000] := by decide
+example : expandResolutionSpec 1000 12000 ["x".toList] = .error .value := by decide
+
+/-! ## 7. non-vacuity: a concrete store meets every hypothesis, and the statements compute -/
+
+section examples
+open Sanitize
+
+/-- toy arithmetic (the theorems hold for any `Ops`; the driver instantiates float64) -/
+def exOps : Bal.Ops Int Int := ⟨fun a b => a * b, fun a => a, fun x => x⟩
+
+def exPx : Pixels := [⟨0, 0, 5⟩, ⟨0, 2, 1⟩, ⟨1, 1, 7⟩, ⟨1, 4, 2⟩, ⟨2, 3, 4⟩, ⟨4, 4, 9⟩]
+
+/-- two chromosomes (3 + 2 bins, the second with unequal widths), a `weight` column, symmetric-upper -/
+def exStore : Store Int where
+  chromNames := ["c0", "c1"]
+  chromLens := [30, 25]
+  bins := [⟨0, 0, 10⟩, ⟨0, 10, 20⟩, ⟨0, 20, 30⟩, ⟨1, 0, 10⟩, ⟨1, 10, 25⟩]
+  fcols := [("weight", [1, 2, 3, 4, 5])]
+  icols := [("gc", [7, 8, 9, 10, 11])]
+  extraOrder := ["gc", "weight"]
+  px := exPx
+  offs := csrIndex exPx 5
+  symm := true
+
+example : ValidStore exStore :=
+  ⟨by unfold StrictSorted; decide, by unfold InRange; decide, fun _ => by unfold Triu; decide,
+    offsOK_csrIndex _ _⟩
+
+example : TableOK exStore.bins ∧ exStore.chromNames.Nodup ∧
+    (∀ c, validSpans exStore.offs c (rowSpans c) = true) := by
+  refine ⟨⟨by decide, ?_⟩, by decide, fun c => C03.rowSpans_valid _ c⟩
+  intro g hg
+  have : g ∈ [[(⟨0, 0, 10⟩ : Bin), ⟨0, 10, 20⟩, ⟨0, 20, 30⟩], [⟨1, 0, 10⟩, ⟨1, 10, 25⟩]] := by
+    simpa [groups, chromOrder, groupOf, exStore] using hg
+  simp at this
+  rcases this with h | h <;> subst h <;> decide
+
+/-- `cooler dump --join -b --annotate gc --one-based-starts -f -r c0 -r2 c1` -/
+example : dumpRows exOps exStore rowSpans
+      { join := true, balanced := true, annotate := some ["gc"], oneBasedStarts := true, fillLower := true,
+        range := some (0, 3), range2 := some (3, 5) } =
+    some [[("chrom1", .str "c0"), ("start1", .int 11), ("end1", .int 20), ("chrom2", .str "c1"),
+           ("start2", .int 11), ("end2", .int 25), ("count", .int 2), ("balanced", .num 20),
+           ("gc1", .int 8), ("gc2", .int 11)],
+          [("chrom1", .str "c0"), ("start1", .int 21), ("end1", .int 30), ("chrom2", .str "c1"),
+           ("start2", .int 1), ("end2", .int 10), ("count", .int 4), ("balanced", .num 48),
+           ("gc1", .int 9), ("gc2", .int 10)]] := by decide
+
+/-- `cooler dump -f --one-based-ids -r c1 -r2 c0`: a box below the diagonal is filled from the stored
+upper triangle -/
+example : dumpRows exOps exStore rowSpans
+      { oneBasedIds := true, fillLower := true, range := some (3, 5), range2 := some (0, 3) } =
+    some [[("bin1_id", .int 5), ("bin2_id", .int 2), ("count", .int 2)],
+          [("bin1_id", .int 4), ("bin2_id", .int 3), ("count", .int 4)]] := by decide
+
+/-- the dump succeeds on every stored pixel (hypothesis `hline` of `load_dump_bg2`) -/
+example : (mapO (fun p => (annotateRow exOps exStore { join := true, oneBasedStarts := true } p).map rowCells)
+    exStore.px).isSome = true := by decide
+
+/-- COO round trip, one-based, lines shuffled and cut into chunks of 2, 3 and 1 lines -/
+example : loadCoo (α := Int) { oneBased := true, symm := true } 5 cooFields "count"
+    [[[.int 2, .int 5, .int 2], [.int 1, .int 1, .int 5]],
+     [[.int 5, .int 5, .int 9], [.int 1, .int 3, .int 1], [.int 3, .int 4, .int 4]],
+     [[.int 2, .int 2, .int 7]]] = .ok exPx := by decide
+
+/-- BG2 round trip, one-based starts, shuffled, variable-width chromosome included -/
+example : loadBg2 (α := Int) { oneBased := true, symm := true } exStore.bins exStore.chromNames bg2Fields "count"
+    [[[.str "c0", .int 11, .int 20, .str "c1", .int 11, .int 25, .int 2],
+      [.str "c0", .int 1, .int 10, .str "c0", .int 1, .int 10, .int 5]],
+     [[.str "c1", .int 11, .int 25, .str "c1", .int 11, .int 25, .int 9],
+      [.str "c0", .int 1, .int 10, .str "c0", .int 21, .int 30, .int 1],
+      [.str "c0", .int 21, .int 30, .str "c1", .int 1, .int 10, .int 4],
+      [.str "c0", .int 11, .int 20, .str "c0", .int 11, .int 20, .int 7]]] = .ok exPx := by decide
+
+/-- a value field declared BEFORE the id columns (`--field count=1` with ids at 3 and 2 is not
+expressible for `load`, whose id columns are fixed; the value column is free) -/
+example : loadCoo (α := Int) {} 5 (cooFields "count" 4) "count"
+    [[[.int 0, .int 2, .str "x", .str "y", .int 1]]] = .ok [⟨0, 2, 1⟩] := by decide
+
+/-- pairs: two records in the same pixel, one mirrored, under a non-monotone layout -/
+example : cloadPairs (α := Int) {} exStore.bins exStore.chromNames (pairsFields 2 1 0 3 []) none
+    [[[.str "c1", .int 12, .str "c0", .int 3], [.str "c0", .int 5, .str "c1", .int 11]]]
+    = .ok ([⟨1, 3, 2⟩], [⟨1, 3, 0⟩]) := by decide
+
+end examples
 
 end Cooler.C16
